@@ -427,9 +427,11 @@ class Interp:
                 raise PyRaise(etype, f"by contract of {cname}")
         saved_og = getattr(self, "old_ghost", None)
         self.old_ghost = _ghost_copy(self.ctx.ghost)
-        if c.get("ghost_effect"):
-            c["ghost_effect"](self, loc)
-        havoc_paths(self, c.get("modifies", {}), loc)
+        skip = set(c.get("havoc_skip", ()))
+        if c.get("effects"):
+            # structural part of the callee's effect that havoc cannot express (e.g. appending a fresh object)
+            c["effects"](self, loc, old)
+        havoc_paths(self, {k: v for k, v in c.get("modifies", {}).items() if k not in skip}, loc)
         res = None
         rty = c.get("returns")
         if rty is not None:
@@ -901,11 +903,31 @@ class Interp:
         is_and = isinstance(e.op, ast.And)
         if self.spec_mode:
             terms = []
-            for x in e.values:
-                t = sym.truth_term(self.ctx, self.eval(x, env))
+            for i, x in enumerate(e.values):
+                if terms:
+                    cp = self.ctx.checkpoint()
+                    try:
+                        v = self.eval(x, env)
+                        self.ctx.commit(cp)
+                    except (PyRaise, SpecError):
+                        # not evaluable unless the earlier operands hold/fail: they are real guards -> case split
+                        self.ctx.rollback(cp)
+                        g = z3.And(*terms) if is_and else z3.Or(*terms)
+                        if self.ctx.branch(g, f"guard@{e.lineno}") != is_and:
+                            return not is_and
+                        terms = []
+                        v = self.eval(x, env)
+                else:
+                    v = self.eval(x, env)
+                t = sym.truth_term(self.ctx, v)
                 if isinstance(t, bool):
                     if t != is_and:
                         return t  # short-circuit: False in and / True in or
+                    continue
+                if _is_none_test(x):
+                    # a None guard short-circuits for real: the later operands may dereference it
+                    if self.ctx.branch(t, f"guard@{e.lineno}") != is_and:
+                        return not is_and
                     continue
                 terms.append(t)
                 # keep evaluating the rest purely; guards like `i < n and xs[i]` rely on total ops
@@ -928,8 +950,19 @@ class Interp:
             t = sym.truth_term(self.ctx, c)
             if isinstance(t, bool):
                 return self.eval(e.body if t else e.orelse, env)
-            a = self.eval(e.body, env)
-            b = self.eval(e.orelse, env)
+            cp = self.ctx.checkpoint()
+            try:
+                a = self.eval(e.body, env)
+                b = self.eval(e.orelse, env)
+            except (PyRaise, SpecError):
+                # a branch is not evaluable unconditionally: the test is a real guard -> case split
+                self.ctx.rollback(cp)
+                return self.eval(e.body if self.ctx.branch(t, f"ifexp@{e.lineno}") else e.orelse, env)
+            if _heapish(a) or _heapish(b):
+                # objects are not merged (identity matters): case split
+                self.ctx.rollback(cp)
+                return self.eval(e.body if self.ctx.branch(t, f"ifexp@{e.lineno}") else e.orelse, env)
+            self.ctx.commit(cp)
             return _ite(self.ctx, t, a, b)
         if self.truth(c, f"ifexp@{e.lineno}"):
             return self.eval(e.body, env)
@@ -1224,6 +1257,26 @@ class Interp:
                 return self.eval(e.args[0], oe)
             finally:
                 self.ctx.ghost = g
+        if self.spec_mode and isinstance(e.func, ast.Name) and e.func.id == "implies" and len(e.args) == 2 and not _defined(env, "implies"):
+            ta = sym.truth_term(self.ctx, self.eval(e.args[0], env))
+            if isinstance(ta, bool):
+                if not ta:
+                    return True
+                tb = sym.truth_term(self.ctx, self.eval(e.args[1], env))
+                return tb if isinstance(tb, bool) else sym.sbool(tb)
+            cp = self.ctx.checkpoint()
+            try:
+                tb = sym.truth_term(self.ctx, self.eval(e.args[1], env))
+                self.ctx.commit(cp)
+            except (PyRaise, SpecError):
+                self.ctx.rollback(cp)
+                if not self.ctx.branch(ta, f"implies@{e.lineno}"):
+                    return True
+                tb = sym.truth_term(self.ctx, self.eval(e.args[1], env))
+                return tb if isinstance(tb, bool) else sym.sbool(tb)
+            if isinstance(tb, bool):
+                return True if tb else sym.sbool(z3.Not(ta))
+            return sym.sbool(z3.Implies(ta, tb))
         fn = self.eval(e.func, env)
         if (isinstance(fn, NativeRef) and fn.obj in (all, any) and len(e.args) == 1 and isinstance(e.args[0], ast.GeneratorExp)
                 and len(e.args[0].generators) == 1 and not e.args[0].generators[0].ifs
@@ -1347,6 +1400,19 @@ class _DictView:
 
     def items(self):
         return self._pairs
+
+
+def _heapish(v) -> bool:
+    if isinstance(v, SOpt):
+        return _heapish(v.val)
+    return isinstance(v, (Rec, sym.PList, list, dict, SList, SMap))
+
+
+def _is_none_test(n) -> bool:
+    for x in ast.walk(n):
+        if isinstance(x, ast.Compare) and any(isinstance(o, (ast.Is, ast.IsNot)) for o in x.ops):
+            return True
+    return False
 
 
 def _loops_in_order(fnode):
